@@ -17,11 +17,12 @@ theorem TaskOk.congr {P : Program} {s s' : St} {k : Key} (h1 : s'.env = s.env) (
   · rw [h7, h6]; exact h.running
   · rw [h7, h6, h3, h1]; exact h.computing
 
-/-- `Inv` only reads these eleven fields of the state. -/
+/-- `Inv` only reads these thirteen fields of the state (`sigAt` only at registered rules). -/
 theorem Inv.congr {P : Program} {s s' : St} (h1 : s'.env = s.env) (h2 : s'.epoch = s.epoch) (h3 : s'.mem = s.mem)
     (h4 : s'.db = s.db) (h5 : s'.dbIter = s.dbIter) (h6 : s'.status = s.status) (h7 : s'.task = s.task)
     (h8 : s'.pending = s.pending) (h9 : s'.target = s.target) (h10 : s'.started = s.started)
-    (h11 : s'.validSeen = s.validSeen) (hi : Inv P s) : Inv P s' := by
+    (h11 : s'.validSeen = s.validSeen) (h12 : s'.registered = s.registered)
+    (h13 : ∀ k, s.registered k = true → s'.sigAt k = s.sigAt k) (hi : Inv P s) : Inv P s' := by
   have ha : active s' ↔ active s := active_congr h10
   have hf : ∀ k, inflight s' k = inflight s k := inflight_congr h6
   constructor
@@ -46,8 +47,10 @@ theorem Inv.congr {P : Program} {s s' : St} (h1 : s'.env = s.env) (h2 : s'.epoch
   · intro d v hd; rw [h8] at hd; rw [h1, h6]; exact hi.pendOk d v hd
   · intro k hfl hs; rw [hf] at hfl; rw [h7] at hs; exact (hi.taskOk k hfl hs).congr h1 h3 h6 h7
   · intro k hfl; rw [hf] at hfl; exact ha.2 (hi.inflightActive k hfl)
-  · rw [h6, h11, h1, h3]; exact hi.validOk
+  · intro k hk hv; rw [h6] at hk; rw [h11] at hv; rw [h1, h3, h13 k (hi.scanReg k hk)]; exact hi.validOk k hk hv
   · rw [h9, h6, h11]; exact hi.validIdle
+  · intro k hk; rw [h12] at hk; rw [h13 k hk]; exact hi.sigAtOk k hk
+  · rw [h6, h12]; exact hi.scanReg
 
 theorem Inv.init (P : Program) : Inv P ({} : St) := by
   constructor <;> intros <;> simp_all [active, inflight]
